@@ -1,8 +1,8 @@
 """C08 — borrowing and owning iterators obey the double-ended exact-size protocol.
 
-  TWIN    Iter vs IterMut, method for method (10 pairs), and the helper pairs slice_take /
+  TWIN    Iter vs IterMut where the mutable form has no rule of its own: empty, new, over_range,
+          advance_front_by, advance_back_by (5 pairs) and the helper pairs slice_take /
           slice_take_first / slice_take_last vs their _mut forms (3 pairs)            [twin]
-  MIRROR  next vs next_back have equal skeletons under right<->left, first<->last (Iter, IterMut)
   ESI1    size_hint = (len, Some(len)) of one len() call; len = right.len() + left.len() (resp.
           inner.len()); next takes from `right` then `left`, next_back from `left` then `right`
   CLONE1  Iter::clone copies right<-right, left<-left; DEFAULT1 default() = empty() with two empty
@@ -21,8 +21,8 @@ QUICK = ["default"]
 THOROUGH = ["default", "nostd", "alloc", "unstable", "eio_both", "eio_both_nostd", "eio", "eioa"]
 
 EXPLANATION = (
-    "Decides agreement between the iterator implementations where they are meant to be the same algorithm (13 TWIN "
-    "pairs, 2 MIRROR pairs), that len/size_hint are computed from both remaining slices (ESI1), that front "
+    "Decides agreement between the iterator implementations where they are meant to be the same algorithm (8 TWIN "
+    "pairs: the constructors, over_range, advance_*_by and the slice_take helpers), that len/size_hint are computed from both remaining slices (ESI1), that front "
     "consumption takes from `right` then `left` and back consumption from `left` then `right`, that a cloned Iter copies "
     "both fields and default iterators are empty, that IntoIter is exactly pop_front/pop_back/len of the buffer it owns, "
     "and that every RangeBounds form is translated as documented. Does NOT decide the selection arithmetic of "
@@ -33,18 +33,15 @@ I, M = "Iter", "IterMut"
 PAIRS = [
     ("Iter::empty", "IterMut::empty"), ("Iter::new", "IterMut::new"), ("Iter::over_range", "IterMut::over_range"),
     ("Iter::advance_front_by", "IterMut::advance_front_by"), ("Iter::advance_back_by", "IterMut::advance_back_by"),
-    ("<Iter<T> as Default>::default", "<IterMut<T> as Default>::default"),
-    ("<Iter<T> as Iterator>::next", "<IterMut<T> as Iterator>::next"),
-    ("<Iter<T> as DoubleEndedIterator>::next_back", "<IterMut<T> as DoubleEndedIterator>::next_back"),
-    ("<Iter<T> as ExactSizeIterator>::len", "<IterMut<T> as ExactSizeIterator>::len"),
-    ("<Iter<T> as Iterator>::size_hint", "<IterMut<T> as Iterator>::size_hint"),
+    # next / next_back / len / size_hint / default of both types are decided one by one (ESI1, DEFAULT1): a
+    # sibling comparison would add nothing there except an alarm when only one of the two is re-spelled
     ("slice_take", "slice_take_mut"), ("slice_take_first", "slice_take_first_mut"), ("slice_take_last", "slice_take_last_mut"),
 ]
 
 
 def run(ctx, progs):
     ctx.explanation = EXPLANATION
-    for r, t in (("TWIN", "Iter/IterMut and helper pairs equal modulo mutability [twin]"), ("MIRROR", "next/next_back mirror images"),
+    for r, t in (("TWIN", "Iter/IterMut and helper pairs equal modulo mutability [twin]"),
                  ("ESI1", "len/size_hint/next shapes"), ("CLONE1", "Iter::clone field-for-field"), ("DEFAULT1", "default = empty"),
                  ("INTO1", "IntoIter = pop_front/pop_back/len of the owned buffer"), ("RANGE1", "bound translation"),
                  ("ITERSET1", "the iterator types implement exactly the reviewed iterator methods (no second implementation of the iteration order)")):
@@ -52,9 +49,6 @@ def run(ctx, progs):
     for cfg, prog in progs.items():
         for a, b in PAIRS:
             shapes.twin(ctx, "TWIN", prog, a, b, cfg, what="the shared and the mutable form of one algorithm")
-        for ty in ("Iter<T>", "IterMut<T>"):
-            shapes.twin(ctx, "MIRROR", prog, "<%s as Iterator>::next" % ty, "<%s as DoubleEndedIterator>::next_back" % ty, cfg,
-                        post=shapes.swap_lr, what="mirror images (right<->left, first<->last)")
         esi1(ctx, prog, cfg)
         iterset1(ctx, prog, cfg)
         into1(ctx, prog, cfg)
@@ -72,18 +66,10 @@ def esi1(ctx, prog, cfg):
         mm(ctx, "ESI1", prog, "<%s as Iterator>::size_hint" % ty,
            [r"call " + ln, r"return tuple::\{0: " + ln + r", 1: Option::Some\{0: " + ln + r"\}\}"], cfg, "size_hint = (len, Some(len))",
            "`size_hint` of %s is not `(len, Some(len))` of one `self.len()` call: the exact-size contract is broken" % ty)
-        mm(ctx, "ESI1", prog, "<%s as Iterator>::next" % ty,
-           [r"call slice_take_first%s\(&self->right\)" % sfx, r"guard discr\(slice_take_first%s\(&self->right\)\)" % sfx,
-            r"return Option::Some\{0: slice_take_first%s\(&self->right\) as Some\.0\}" % sfx,
-            r"call slice_take_first%s\(&self->left\)" % sfx, r"guard discr\(slice_take_first%s\(&self->left\)\)" % sfx,
-            r"return Option::Some\{0: slice_take_first%s\(&self->left\) as Some\.0\}" % sfx, r"return Option::None\{\}"], cfg,
-           "next: first of right, else first of left", "`next` of %s does not take the first element of `right` and only then of `left`" % ty, guards=True)
-        mm(ctx, "ESI1", prog, "<%s as DoubleEndedIterator>::next_back" % ty,
-           [r"call slice_take_last%s\(&self->left\)" % sfx, r"guard discr\(slice_take_last%s\(&self->left\)\)" % sfx,
-            r"return Option::Some\{0: slice_take_last%s\(&self->left\) as Some\.0\}" % sfx,
-            r"call slice_take_last%s\(&self->right\)" % sfx, r"guard discr\(slice_take_last%s\(&self->right\)\)" % sfx,
-            r"return Option::Some\{0: slice_take_last%s\(&self->right\) as Some\.0\}" % sfx, r"return Option::None\{\}"], cfg,
-           "next_back: last of left, else last of right", "`next_back` of %s does not take the last element of `left` and only then of `right`" % ty, guards=True)
+        for meth, take, first, second, what in (
+                ("<%s as Iterator>::next" % ty, "slice_take_first" + sfx, "right", "left", "next: first of right, else first of left"),
+                ("<%s as DoubleEndedIterator>::next_back" % ty, "slice_take_last" + sfx, "left", "right", "next_back: last of left, else last of right")):
+            first_then_second(ctx, prog, cfg, meth, take, first, second, what)
         mm(ctx, "DEFAULT1", prog, "<%s as Default>::default" % ty, [r"return %s::%s\{right: const, left: const\}" % (ty.split("<")[0], ty.split("<")[0])], cfg, "default() = empty()",
            "`default()` of %s is not `empty()`" % ty)
     mm(ctx, "CLONE1", prog, "<Iter<T> as Clone>::clone", [r"return Iter::Iter\{right: \(\*self\)\.right, left: \(\*self\)\.left\}"], cfg,
@@ -107,6 +93,32 @@ def esi1(ctx, prog, cfg):
                     ok = False
         ctx.check(ok, "DEFAULT1", name, "both fields are empty slices", f.loc,
                   "`%s` does not build both fields from zero-length arrays" % name, "right and left are unsizings of [T; 0]", cfg)
+
+
+def first_then_second(ctx, prog, cfg, meth, take, first, second, what):
+    """`take(&mut self.<first>)`, and only when that is None `take(&mut self.<second>)`; the result is returned unchanged.
+    Two spellings are accepted: the if-let chain and `take(first).or_else(|| take(second))`."""
+    f = ctx.need_fn(prog, meth, "ESI1")
+    if f is None:
+        return
+    A = r"%s\(&self->%s\)" % (take, first)
+    B = r"%s\(&self->%s\)" % (take, second)
+    chain = [r"call " + A, r"guard discr\(%s\)" % A, r"return Option::Some\{0: %s as Some\.0\}" % A,
+             r"call " + B, r"guard discr\(%s\)" % B, r"return Option::Some\{0: %s as Some\.0\}" % B, r"return Option::None\{\}"]
+    orelse = [r"call " + A, r"call core::option::Option::or_else\(%s, \{closure#0\}::\{0: &self->%s\}\)" % (A, second),
+              r"return Option::or_else\(%s, \{closure#0\}::\{0: &self->%s\}\)" % (A, second)]
+    clos = [r"call %s\(_1\.0\)" % take, r"return %s\(_1\.0\)" % take]
+    import re
+    ev = shapes.events(f, guards=True)
+    def m(pats, evs):
+        return len(pats) == len(evs) and all(re.fullmatch(p, e) for p, e in zip(pats, evs))
+    ok, by = m(chain, ev), "if-let chain"
+    if not ok and m(orelse, ev):
+        c = prog.fn(meth + "::{closure#0}")
+        ok, by = c is not None and m(clos, shapes.events(c, guards=True)), "or_else closure"
+    ctx.check(ok, "ESI1", meth, what, f.loc,
+              "`%s` does not take from `%s` and only then from `%s`, returning what it took" % (meth, first, second),
+              by + ": " + " ; ".join(e[:60] for e in ev), cfg, detail="\n".join("  " + e[:200] for e in ev[:10]))
 
 
 def into1(ctx, prog, cfg):
